@@ -6,6 +6,7 @@
          with offsets), several variants of one plane.
    Scalar: the group ring Q(i)[C_L]; the square root of the unitary factor is applied by the harness. *)
 From LV Require Import Extract.PlaneCodec Model.Segment.
+From LV Require Model.Fft.
 Require Import ExtrOcamlBasic.
 
 Record callargs := mkCall { c_dur : Qc; c_duc : Qc; c_shape : option (Z * Z); c_pshape : option (Z * Z); c_os : Z }.
@@ -36,6 +37,31 @@ Definition variant (L : nat) (w0 : pwf (GRS L)) (ps : list (result (celem (GRS L
         ++ eresult (eviews L) (rbind (to_wavefront w1 PtPupil) (fun w2 => call L w2 c))
   end.
 
+(* ---- propagate_fft (Model/Fft.v, property C09) on the wavefront a chain leaves behind; the FFT grid (N0, N1)
+   is supplied by the case; scratch: none, or a buffer of the given shape with arbitrary prior content ---- *)
+Record fcall := mkFcall { f_N0 : Z; f_N1 : Z; f_du : Qc * Qc; f_shape : option (Z * Z); f_os : Z; f_scratch : option (Z * Z) }.
+Definition pfcall : parser fcall :=
+  N0 <- pZ ;; N1 <- pZ ;; du0 <- pQ ;; du1 <- pQ ;; sh <- popt (ppair pZ pZ) ;; os <- pZ ;; sc <- popt (ppair pZ pZ) ;;
+  pret (mkFcall N0 N1 (du0, du1) sh os sc).
+Definition fcall_run (L : nat) (w : Fft.wavefront (GRS L)) (c : fcall) : list Z :=
+  let sc := match f_scratch c with
+            | Some (a, b) => Some (@aconst (GRS L) a b (gofc L (1%Qc, 1%Qc)))
+            | None => None end in
+  match Fft.propagate_fft_N (S := GRS L) (fun _ => gr1 L) (f_N0 c) (f_N1 c) w (f_du c) (f_shape c) (f_os c) sc with
+  | Ok (out, _) => 0 :: fst (Fft.wshape out) :: snd (Fft.wshape out) :: eresult (earr L) (Fft.wfield out)
+  | Err e => [1; errcode e]
+  end.
+Definition to_fft (L : nat) (w : pwf (GRS L)) : result (Fft.wavefront (GRS L)) :=
+  match pw_shape w, pw_pix w, pw_focal w with
+  | Some sh, Some px, FVal z => Ok (Fft.mkWf (pw_data w) sh (pw_lam w) px z Fft.PPupil)
+  | _, _, _ => Err ValueError
+  end.
+Definition fvariant (L : nat) (w0 : pwf (GRS L)) (ps : list (result (celem (GRS L)))) (c : fcall) : list Z :=
+  match rbind (chain_r L ps w0) (to_fft L) with
+  | Err e => [1; errcode e]
+  | Ok w => 0 :: fcall_run L w c
+  end.
+
 Definition run (inp : list Z) : list Z :=
   match inp with
   | op :: Lz :: rest =>
@@ -47,6 +73,32 @@ Definition run (inp : list Z) : list Z :=
       | Some (lam, tl, segs, monos, c) =>
           let w0 := pwf_init lam PixNone None tl in     (* Wavefront(lam, tilt=[rx, ry]) carries one Tilt *)
           0 :: variant L w0 segs c ++ variant L w0 monos c
+      | None => emalformed end
+    else if op =? 7 then   (* the two chains only: the views before any propagation *)
+      match pall (lam <- pQ ;; segs <- plist (p_plane L) ;; monos <- plist (p_plane L) ;; pret (lam, segs, monos)) rest with
+      | Some (lam, segs, monos) =>
+          let w0 := pwf_init lam PixNone None [] in
+          let pre := fun ps => match chain_r L ps w0 with
+                               | Err e => [1; errcode e]
+                               | Ok w1 => 0 :: eresult (efdata L) (pwf_field w1) ++ eresult (efdata L) (pwf_intensity w1) end in
+          0 :: pre segs ++ pre monos
+      | None => emalformed end
+    else if op =? 5 then   (* segmented vs monolithic through propagate_fft *)
+      match pall (lam <- pQ ;; segs <- plist (p_plane L) ;; monos <- plist (p_plane L) ;; c <- pfcall ;;
+                  pret (lam, segs, monos, c)) rest with
+      | Some (lam, segs, monos, c) =>
+          let w0 := pwf_init lam PixNone None [] in
+          0 :: fvariant L w0 segs c ++ fvariant L w0 monos c
+      | None => emalformed end
+    else if op =? 6 then   (* whole array vs cropped sub-arrays through propagate_fft *)
+      match pall (lam <- pQ ;; dxr <- pQ ;; dxc <- pQ ;; z <- pQ ;; g <- parr L ;;
+                  vs <- plist (plist (r0 <- pZ ;; r1 <- pZ ;; c0 <- pZ ;; c1 <- pZ ;; pret (r0, r1, c0, c1))) ;;
+                  c <- pfcall ;; pret (lam, dxr, dxc, z, g, vs, c)) rest with
+      | Some (lam, dxr, dxc, z, g, vs, c) =>
+          let mk := fun '(r0, r1, c0, c1) =>
+            let '(orr, occ) := slice_offset (SBox r0 r1 c0 c1) (nr g) (nc g) in
+            mkField (D2 (force (aslice g r0 r1 c0 c1))) orr occ [] in
+          0 :: elist (fun sl => fcall_run L (Fft.mkWf (map mk sl) (nr g, nc g) lam (dxr, dxc) z Fft.PPupil) c) vs
       | None => emalformed end
     else if op =? 4 then   (* one segmented pupil with per-segment tilts: the views after the propagation *)
       match pall (lam <- pQ ;; segs <- plist (p_plane L) ;; c <- pcall ;; pret (lam, segs, c)) rest with
